@@ -468,6 +468,25 @@ def F31():
         return "count after the two inserts is not 2"
 
 
+def F32():
+    d = tempfile.mkdtemp()
+    try:
+        path = os.path.join(d, "db.csv")
+        db = TinyFlux(path, lineterminator="\n")
+        db.insert(Point(time=t(0), tags={"a": "x\ry"}, fields={"f": 1}))
+        try:
+            got = db.all()
+        except Exception as e:  # noqa
+            return f"lineterminator='\\n' and a tag value with a bare CR: insert accepted it, every read now raises {type(e).__name__}: {e}"
+        finally:
+            db.close()
+        if len(got) != 1 or got[0].tags != {"a": "x\ry"}:
+            return f"read back {[(p.tags) for p in got]}"
+    finally:
+        import shutil
+        shutil.rmtree(d, ignore_errors=True)
+
+
 ALL = [k for k in list(globals()) if re.fullmatch(r"F\d+[a-c]?", k)]
 
 if __name__ == "__main__":
